@@ -11,7 +11,10 @@ import ast, copy, json, os, random, shutil, subprocess, sys, time
 V = os.path.dirname(os.path.dirname(os.path.abspath(__file__)))
 S = os.path.join(V, "seeded", "auto")
 PY = "/venv/bin/python"
-FILES = {"localcider/backend/sequence.py": None, "localcider/backend/sequenceComplexity.py": None, "localcider/backend/seqfileparser.py": "C14"}
+FILES = {"localcider/backend/sequence.py": None, "localcider/backend/sequenceComplexity.py": None, "localcider/backend/seqfileparser.py": "C14",
+         "localcider/backend/wang_landau.py": None, "localcider/sequenceParameters.py": None}
+if os.environ.get("MUTATE_FILES"):
+    FILES = {k: v for k, v in FILES.items() if any(x in k for x in os.environ["MUTATE_FILES"].split(","))}
 FUNC = {"kappa": "C01", "delta": "C02", "deltaForm": "C02", "sigma": "C02", "deltaMax": "C03", "FCR": "C04", "NCPR": "C04", "Fplus": "C04", "Fminus": "C04",
         "countPos": "C04", "countNeg": "C04", "countNeut": "C04", "FER": "C04", "mean_net_charge": "C04", "molecular_weight": "C04", "meanHydropathy": "C04",
         "uverskyHydropathy": "C04", "meanWWHydropathy": "C04", "FPPII_chain": "C04", "fraction_disorder_promoting": "C04", "amino_acid_fraction": "C04",
@@ -23,7 +26,18 @@ FUNC = {"kappa": "C01", "delta": "C02", "deltaForm": "C02", "sigma": "C02", "del
         "get_STY_residues": "C16", "swapRes": "C17", "swapRandChargeRes": "C17", "full_shuffle": "C17", "permute_cluster_charges": "C17",
         "permute_block_swap": "C17", "set_HTMLColorResiduePalette": "C20", "get_HTMLColorString": "C20",
         "CWF": "C11", "LC": "C11", "LZW": "C11", "get_WF_complexity": "C11", "get_LC_complexity": "C11", "get_LZW_complexity": "C11",
-        "get_indexed_complexity_vector": "C11", "reduce_alphabet": "C12", "parseSeqFile": "C14"}
+        "get_indexed_complexity_vector": "C11", "reduce_alphabet": "C12", "parseSeqFile": "C14",
+        # the sampler
+        "run_normal_WL": "C18", "run_flatcheck": "C18", "getBinCenters": "C18", "getBinSize": "C18", "indexInsideRelevantRegion": "C18",
+        # the public class
+        "get_kappa": "C01", "get_delta": "C02", "get_deltaMax": "C03", "get_FCR": "C04", "get_NCPR": "C04", "get_fraction_expanding": "C09",
+        "get_mean_net_charge": "C09", "get_Omega": "C06", "get_kappa_X": "C06", "get_Omega_sequence": "C06", "get_SCD": "C07",
+        "get_phasePlotRegion": "C08", "get_isoelectric_point": "C09", "verify_pH": "C09", "get_linear_NCPR": "C10", "get_linear_FCR": "C10",
+        "get_linear_sigma": "C10", "get_linear_hydropathy": "C10", "get_linear_sequence_composition": "C10", "get_linear_complexity": "C11",
+        "get_reduced_alphabet_sequence": "C12", "set_phosphosites": "C16", "get_full_phosphostatus_kappa_distribution": "C16",
+        "get_kappa_after_phosphorylation": "C16", "get_phosphosequence": "C16", "get_shuffled_sequence": "C17", "get_PPII_propensity": "C04",
+        "get_molecular_weight": "C04", "get_amino_acid_fractions": "C04", "show_phaseDiagramPlot": "C19", "save_phaseDiagramPlot": "C19",
+        "show_uverskyPlot": "C19", "save_uverskyPlot": "C19", "show_linearNCPR": "C19", "save_linearNCPR": "C19"}
 CMP = {ast.Lt: ast.LtE, ast.LtE: ast.Lt, ast.Gt: ast.GtE, ast.GtE: ast.Gt, ast.Eq: ast.NotEq, ast.NotEq: ast.Eq}
 BIN = {ast.Add: ast.Sub, ast.Sub: ast.Add, ast.Mult: ast.Div, ast.Div: ast.Mult}
 
@@ -36,8 +50,11 @@ def sites(tree, default):
     """(function, node path index, kind) for every mutable node inside a mapped function."""
     out = []
     for fn in ast.walk(tree):
-        if isinstance(fn, ast.FunctionDef) and (fn.name in FUNC or default or fn.name.strip("_") in FUNC):
-            prop = FUNC.get(fn.name) or FUNC.get(fn.name.strip("_")) or default
+        if not isinstance(fn, ast.FunctionDef):
+            continue
+        short = fn.name.split("__")[-1] if fn.name.startswith("_") else fn.name
+        if fn.name in FUNC or default or short in FUNC:
+            prop = FUNC.get(fn.name) or FUNC.get(short) or default
             if not prop:
                 continue
             for node in ast.walk(fn):
